@@ -102,7 +102,9 @@ func objectMapContracts(r *Report, p *Program, rule string) {
 		ok, why := err == nil, ""
 		nStore := 0
 		for _, pa := range paths {
-			keyFound := val(pa, -1, func(a string) bool { return strings.HasPrefix(a, "p0[") && strings.Contains(a, "Name)(") && strings.HasSuffix(a, "]#1") }) == 1
+			keyFound := val(pa, -1, func(a string) bool {
+				return strings.HasPrefix(a, "p0[") && strings.Contains(a, "Name)(") && strings.HasSuffix(a, "]#1")
+			}) == 1
 			// a lookup cannot succeed in a map that the same path established to be nil, empty or absent
 			infeasible := false
 			for _, l := range pa.Lits {
